@@ -34,12 +34,14 @@ Definition chk_dist : P (list Z) :=
        end && close32 256 dab mab) in
   ret (verdict exact specb [mab; mba; maa]).
 
-(** 1802: batch = element-wise. metric, queries, target, impl batch result *)
+(** 1802: batch = element-wise. metric, queries, target, impl batch result, the implementation's own
+    element-wise results for the same pairs.  The property's demand is evaluated on the implementation
+    alone: the two lists are bit-identical *)
 Definition chk_batch : P (list Z) :=
-  mz <- pz ;; qs <- pvecs ;; t <- pvec ;; outs <- pzs ;;
+  mz <- pz ;; qs <- pvecs ;; t <- pvec ;; outs <- pzs ;; calc <- pzs ;;
   let m := metric_of_Z mz in
   let mo := map F32.canon (dist_batch m qs t) in
-  ret (verdict (list_eqb mo outs) (vec_close 256 mo outs) mo).
+  ret (verdict (list_eqb mo outs && list_eqb (map F32.canon calc) outs) (list_eqb (map F32.canon calc) (map F32.canon outs)) mo).
 
 (** 1803: preprocess. metric, v, err flag, out, v after Preprocess (purity), err flag in place, v after in-place *)
 Definition chk_preprocess : P (list Z) :=
